@@ -182,6 +182,43 @@ pub fn h_table_layout_new<S: Src>(_s: &mut S) -> Chk {
     Ok(())
 }
 
+// Bucket pointer arithmetic: a bucket handle is "index i relative to the table's base"; from_base_index, next_n,
+// to_base_index and as_ptr must agree on that for sized and for zero-sized elements (where the "pointer" IS the index)
+fn chk_bucket_index<T, S: Src>(s: &mut S) -> Chk {
+    const SLOTS: usize = 8;
+    let mut store: [core::mem::MaybeUninit<T>; SLOTS] = unsafe { core::mem::MaybeUninit::uninit().assume_init() };
+    let zst = core::mem::size_of::<T>() == 0;
+    // sized elements: the handle must stay inside the table's data part; ZST: any index a table can have
+    let (i, k) = if zst { (s.usize() >> 2, s.usize() >> 2) } else { let i = s.below(SLOTS); (i, s.below(SLOTS - i)) };
+    unsafe {
+        let base: NonNull<T> = NonNull::new_unchecked((store.as_mut_ptr() as *mut T).add(if zst { 0 } else { SLOTS }));
+        let b = Bucket::<T>::from_base_index(base, i);
+        ensure!(b.to_base_index(base) == i, "Bucket: to_base_index(from_base_index(base, i)) == i");
+        let c = b.next_n(k);
+        reach!(k > 0 && i > 0, "bucket handle moved on from a non-zero index");
+        ensure!(c.to_base_index(base) == i + k, "Bucket: next_n(k) moves the handle k buckets on");
+        let d = Bucket::<T>::from_base_index(base, i + k);
+        ensure!(c.ptr == d.ptr, "Bucket: next_n(k) after from_base_index(i) is from_base_index(i + k)");
+        if !zst {
+            ensure!(c.as_ptr() == base.as_ptr().sub(i + k + 1), "Bucket: as_ptr is the start of element i + k, counted down from base");
+        } else {
+            ensure!(c.as_ptr() as usize == core::mem::align_of::<T>(), "Bucket: as_ptr of a ZST handle is aligned and non-null");
+        }
+    }
+    Ok(())
+}
+#[derive(Clone, Copy)]
+#[repr(align(8))]
+pub struct Z8;
+pub fn h_bucket_index<S: Src>(s: &mut S) -> Chk {
+    sub!(chk_bucket_index::<(), S>(s));
+    sub!(chk_bucket_index::<Z8, S>(s));
+    sub!(chk_bucket_index::<u8, S>(s));
+    sub!(chk_bucket_index::<u64, S>(s));
+    sub!(chk_bucket_index::<[u64; 3], S>(s));
+    Ok(())
+}
+
 pub fn pre_move_next(pos: usize, stride: usize, mask: usize) -> bool {
     // a table's allocation (buckets + WIDTH control bytes at least) fits isize::MAX
     // (calculate_layout_for's contract), hence the bound on mask
